@@ -64,13 +64,13 @@ class WindowManager:
         :returns: Nothing
         :rtype: ``None``
         """
-        self.current_window_size += size
-
-        if self.current_window_size > LARGEST_FLOW_CONTROL_WINDOW:
+        if self.current_window_size + size > LARGEST_FLOW_CONTROL_WINDOW:
             raise FlowControlError(
                 "Flow control window mustn't exceed %d" %
                 LARGEST_FLOW_CONTROL_WINDOW
             )
+
+        self.current_window_size += size
 
         if self.current_window_size > self.max_window_size:
             self.max_window_size = self.current_window_size
